@@ -164,7 +164,7 @@ Proof. apply nth_error_map. Qed.
 (** One step: the model commutes with the specification and keeps the invariant. *)
 Theorem step_refines w o : WF w -> op_ok o -> abs (step w o) = astep (abs w) o /\ WF (step w o).
 Proof.
-  intros [Hp Hs] Ho. destruct o as [sid c now|sid|sid| |sid off|sid|]; cbn [step astep].
+  intros [Hp Hs] Ho. destruct o as [sid c now|sid|sid|sid| |sid off|sid|]; cbn [step astep].
   - (* Add *)
     destruct Ho as [Hnh Hts]. unfold abs; cbn [file sessions tsflag afile asess ats].
     split.
@@ -195,6 +195,22 @@ Proof.
       * apply Forall_update_nth; [exact Hs|]. intros x Hx. unfold hflush, mark_saved; cbn [items].
         rewrite Forall_map. eapply Forall_impl; [|exact Hx]. intros it Hi. exact Hi.
   - (* SaveFail *) split; [reflexivity|split; assumption].
+  - (* Write *)
+    unfold abs at 2; cbn [asess]. rewrite nth_error_map_view.
+    destruct (nth_error (sessions w) sid) as [h|] eqn:En; cbn [option_map]; [|split; [reflexivity|split; assumption]].
+    assert (Hh : Forall item_ok (items h)).
+    { rewrite Forall_forall in Hs. apply Hs. eapply nth_error_In; eassumption. }
+    assert (Hd : Forall item_ok (mark_dirty (items h))).
+    { unfold mark_dirty. rewrite Forall_map. eapply Forall_impl; [|exact Hh]. intros it Hi. exact Hi. }
+    destruct (iview_flush (tsflag w) (mark_dirty (items h)) Hd) as [Hv Hpe].
+    split.
+    + unfold abs; cbn [file sessions tsflag afile asess ats]. f_equal.
+      unfold write_lines. rewrite Hv. unfold view, mark_dirty. rewrite !map_map.
+      assert (Hf : forall l, filter dirty (map (fun it => {| id := id it; cmd := cmd it; ts := ts it; dirty := true |}) l)
+                             = map (fun it => {| id := id it; cmd := cmd it; ts := ts it; dirty := true |}) l).
+      { induction l as [|x l IH]; [reflexivity|]. cbn. rewrite IH. reflexivity. }
+      rewrite Hf, !map_map. reflexivity.
+    + split; [exact Hpe|exact Hs].
   - (* NewSession *)
     destruct (import_fold (file w) empty_hist None) as (H1 & H2 & H3). cbv zeta in *.
     split.
@@ -273,10 +289,19 @@ Proof.
 Qed.
 
 (** The file only ever grows. *)
-Theorem file_append_only w o : exists more, file (step w o) = file w ++ more.
+Theorem file_append_only w o : is_write o = false -> exists more, file (step w o) = file w ++ more.
 Proof.
-  destruct o; cbn [step]; try (exists []; rewrite app_nil_r; reflexivity).
+  intros Hw. destruct o; try discriminate Hw; cbn [step]; try (exists []; rewrite app_nil_r; reflexivity).
   destruct (nth_error (sessions w) sid); [eexists; reflexivity|exists []; rewrite app_nil_r; reflexivity].
+Qed.
+
+(** `history -w` leaves exactly the session's items in the file (nothing of the old contents). *)
+Theorem write_replaces_file w sid h : WF w -> nth_error (sessions w) sid = Some h ->
+  afile (abs (step w (Write sid))) = map (fun it => (cmd it, if tsflag w then ts it else None)) (items h).
+Proof.
+  intros Hw En. destruct (step_refines w (Write sid) Hw I) as [-> _].
+  cbn [astep]. unfold abs at 1; cbn [asess]. rewrite nth_error_map_view, En. cbn [option_map afile].
+  unfold view. rewrite map_map. reflexivity.
 Qed.
 
 (** Non-vacuity: a concrete history satisfying the hypotheses, evaluated. *)
